@@ -478,6 +478,96 @@ pub enum Case {
     /// the filter as wired into the receive task (real `RecvHandler::handle_inbound` behind a
     /// channel): datagrams of every packet kind, exemptions, permit/ban entries
     Recv(RecvCase),
+    /// timed and permanent bans while a handler runs (its periodic un-ban check fires in virtual time)
+    Unban(UnbanCase),
+}
+
+#[derive(Clone, Debug, PartialEq, Eq, Hash, Serialize, Deserialize)]
+pub struct UnbanCase {
+    /// (is_node, index, seconds until the ban ends; 0 = permanent)
+    pub bans: Vec<(bool, u8, u16)>,
+    /// how many 5-minute check periods of virtual time pass
+    pub periods: u8,
+}
+
+pub fn run_unban(c: &UnbanCase) -> CaseReport {
+    use crate::engines::wire::{AppMode, Know, WireConfig, World};
+    let mut rep = CaseReport::default();
+    let rt = tokio::runtime::Builder::new_current_thread().enable_all().start_paused(true).build().expect("runtime");
+    rt.block_on(async {
+        IP_FAMILY.with(|f| f.set(0));
+        *PERMIT_BAN_LIST.write() = Default::default();
+        let cfg = WireConfig {
+            n_peers: 1,
+            retries: 1,
+            filter: true,
+            wru_mode: vec![AppMode::Immediate; 4],
+            wru_know: vec![Know::Current; 4],
+            resp_mode: vec![AppMode::Immediate; 4],
+            nodes_packets: 1,
+            seqs: vec![1; 4],
+            nat_peers: vec![],
+            nat_kind: 0,
+            dual_records: false,
+            foreign_enr_answer: vec![],
+            v_session_timeout_ms: None,
+            v_session_capacity: None,
+        };
+        let mut w = World::new(cfg).await;
+        let t0 = Instant::now();
+        let mut entries: Vec<(bool, u8, Option<Instant>)> = Vec::new();
+        {
+            let mut l = PERMIT_BAN_LIST.write();
+            for (is_node, i, secs) in c.bans.iter().take(8) {
+                let until = if *secs == 0 { None } else { Some(t0 + Duration::from_secs(*secs as u64)) };
+                if *is_node {
+                    l.ban_nodes.insert(node_of(*i), until);
+                } else {
+                    l.ban_ips.insert(ip_of(*i), until);
+                }
+                entries.retain(|(n, j, _)| !(*n == *is_node && (if *is_node { node_of(*j) == node_of(*i) } else { ip_of(*j) == ip_of(*i) })));
+                entries.push((*is_node, *i, until));
+            }
+        }
+        rep.class("unban-check");
+        for _ in 0..c.periods.clamp(1, 3) {
+            tokio::time::sleep(Duration::from_secs(301)).await;
+            w.settle().await;
+            let now = Instant::now();
+            let l = PERMIT_BAN_LIST.read();
+            for (is_node, i, until) in &entries {
+                // a ban that has certainly not run out (real clock) must still be in force
+                let still_due = until.map(|u| u > now + Duration::from_secs(1)).unwrap_or(true);
+                if !still_due {
+                    continue;
+                }
+                let present = if *is_node { l.ban_nodes.contains_key(&node_of(*i)) } else { l.ban_ips.contains_key(&ip_of(*i)) };
+                if !present {
+                    rep.fail(
+                        "filter/B5-ban-lifted-before-its-end",
+                        format!(
+                            "a ban of {} {} with {} was lifted by the running handler {:?} after it was imposed",
+                            if *is_node { "node id" } else { "IP" },
+                            i,
+                            until.map(|u| format!("{:?} to run", u - t0)).unwrap_or("no end".into()),
+                            t0.elapsed()
+                        ),
+                    );
+                    return;
+                }
+                if until.is_some() {
+                    rep.nontrivial = true;
+                }
+            }
+        }
+        drop(w);
+        *PERMIT_BAN_LIST.write() = Default::default();
+    });
+    drop(rt);
+    if let Some(p) = crate::runner::take_panic() {
+        rep.fail(format!("panic-in-task/{}", p.split(':').take(2).collect::<Vec<_>>().join(":")), p);
+    }
+    rep
 }
 
 #[derive(Clone, Copy, Debug, PartialEq, Eq, Hash, Serialize, Deserialize)]
@@ -763,6 +853,12 @@ impl Property for C18 {
             2 => fil_strategy(80).prop_map(Case::Filter),
             1 => recv_strategy(60).prop_map(Case::Recv),
         ]
+        .prop_flat_map(|c| {
+            // one case in ~300: the handler's periodic un-ban check
+            let unban = (proptest::collection::vec((any::<bool>(), 0u8..4, prop_oneof![1 => Just(0u16), 2 => 2u16..150, 2 => 150u16..400, 1 => 400u16..4000]), 1..6), 1u8..=2)
+                .prop_map(|(bans, periods)| Case::Unban(UnbanCase { bans, periods }));
+            prop_oneof![300 => Just(c), 1 => unban]
+        })
         .boxed()
     }
     fn run(case: &Case) -> CaseReport {
@@ -770,10 +866,11 @@ impl Property for C18 {
             Case::Limiter(c) => run_limiter(c),
             Case::Filter(c) => run_filter(c),
             Case::Recv(c) => run_recv(c),
+            Case::Unban(c) => run_unban(c),
         }
     }
     fn rule() -> String {
-        "(a) arrival sequences (<=300 quick / <=600 thorough events over <=6 keys, gaps in {0, <t, t-1, t, t..n t, n t, >n t}, 10% multi-token batches, interleaved prune(now)) against the real Limiter with explicit time for quotas burst 1..32, replenish interval 1 us..10 s (period = n t, or n t + r with period >= 1 ms): every decision compared with an exact integer token bucket, with a second real instance that is never pruned (metamorphic), and all pairs of accepted arrivals checked against m*t <= period + window. (b) arrival sequences over 3 IPs x 4 node ids against the real Filter + the real global permit/ban list, quotas with a 1 h period (exactly burst tokens per key during a case), ban duration None/1h, permit/ban entries toggled between arrivals, prune_limiter calls; order-independent assertions B1..B5. (c) the same filter as wired into the real receive task (handle_inbound behind a channel): well-formed message / handshake / WHOAREYOU datagrams and undecodable bytes from 3 IPs x 4 node ids, exemptions for expected responses switched on and off, permit/ban entries, 30 s ticks of virtual time (the task's own pruning); for unsolicited datagrams: none from a banned IP or (if it carries a source id) a banned node id is handed to the handler, at most burst per IP / node id / in total are handed on, and one that is within every applicable quota and not banned is handed on. Non-trivial: (a) a key was refused, a prune followed, and the key was accepted later; (b) the filter itself imposed a ban and a permit entry overrode a ban; (c) a handshake-kind datagram arrived from a banned or over-quota node id.".into()
+        "(a) arrival sequences (<=300 quick / <=600 thorough events over <=6 keys, gaps in {0, <t, t-1, t, t..n t, n t, >n t}, 10% multi-token batches, interleaved prune(now)) against the real Limiter with explicit time for quotas burst 1..32, replenish interval 1 us..10 s (period = n t, or n t + r with period >= 1 ms): every decision compared with an exact integer token bucket, with a second real instance that is never pruned (metamorphic), and all pairs of accepted arrivals checked against m*t <= period + window. (b) arrival sequences over 3 IPs x 4 node ids against the real Filter + the real global permit/ban list, quotas with a 1 h period (exactly burst tokens per key during a case), ban duration None/1h, permit/ban entries toggled between arrivals, prune_limiter calls; order-independent assertions B1..B5. (c) the same filter as wired into the real receive task (handle_inbound behind a channel): well-formed message / handshake / WHOAREYOU datagrams and undecodable bytes from 3 IPs x 4 node ids, exemptions for expected responses switched on and off, permit/ban entries, 30 s ticks of virtual time (the task's own pruning); for unsolicited datagrams: none from a banned IP or (if it carries a source id) a banned node id is handed to the handler, at most burst per IP / node id / in total are handed on, and one that is within every applicable quota and not banned is handed on. (d) one case in ~300: timed (2 s .. 1 h) and permanent bans are written to the global list while a real handler runs and 1..2 of its 5-minute un-ban check periods pass in virtual time (no real time passes): every ban that has not run out is still in force. Non-trivial: (a) a key was refused, a prune followed, and the key was accepted later; (b) the filter itself imposed a ban and a permit entry overrode a ban; (c) a handshake-kind datagram arrived from a banned or over-quota node id.".into()
     }
     fn assumptions() -> Vec<String> {
         vec![
